@@ -591,9 +591,9 @@ class Interp:
             out.iv[n] = (min(l1, l2), max(h1, h2))
             # relations that hold on both sides towards ids that survive the join are kept for the joined value
             u1 = self.upper_set(s1, a[2])
-            if u1:
-                u2 = self.upper_set(s2, b[2])
-                cands = set(u1) | set(u2)
+            u2 = self.upper_set(s2, b[2])
+            cands = set(u1) | set(u2)
+            if cands:
                 for X in cands:
                     if X == a[2] or X == b[2]:
                         continue
